@@ -28,7 +28,7 @@ def direct_scenarios(ctx, n):
     out = []
     for k in range(n):
         run = 5000 + k
-        fam = k % 4
+        fam = k % 5
         nev = rng.randint(1, 14)
         kinds = ["r"] * nev
         if fam == 0:      # byte limit only / with count
@@ -42,6 +42,10 @@ def direct_scenarios(ctx, n):
             # children of a split carry no bytes of their own (processor.Spawn leaves Size at 0)
             sc = dict(workers=rng.choice([1, 2]), count=rng.choice([1, 2, 3]), bytes=0, flush_ms=10, sizes=[0 if x == "c" else 1 for x in kinds],
                       order=rng.choice(["fifo", "random"]), stale=False)
+        elif fam == 4:    # an Add queued on the mutex behind the heartbeat while the open batch has expired
+            nev = rng.choice([2, 4, 6])
+            kinds = ["r"] * nev
+            sc = dict(workers=2, count=10, bytes=0, flush_ms=20, sizes=[1] * nev, order="fifo", stale=False, contend=True)
         else:             # staleness: fewer events than the count limit, nothing else ever arrives
             nev = rng.randint(1, 4)
             kinds = rng.choice([["r"] * nev, ["r"] * nev, ["c"] * nev, [rng.choice(["r", "c"]) for _ in range(nev)]])
@@ -49,7 +53,8 @@ def direct_scenarios(ctx, n):
                       order="fifo", stale=True)
         if sc["count"] == 0 and sc["bytes"] == 0:
             sc["count"] = 2
-        sc.update(run=run, name="direct-%d-%d" % (fam, run), kinds=kinds, adders=rng.choice([1, 1, 2, 3]) if fam != 3 else 1, seed=ctx.seed * 7919 + k)
+        sc.setdefault("contend", False)
+        sc.update(run=run, name="direct-%d-%d" % (fam, run), kinds=kinds, adders=rng.choice([1, 1, 2, 3]) if fam < 3 else 1, seed=ctx.seed * 7919 + k)
         out.append(sc)
     return out
 
@@ -66,6 +71,11 @@ def run(ctx):
                  name="BatcherProto/stop send-after-unlock (mutant = the defect D9 repaired in 08b19bf)")
     if d9.ok or d9.violated != "StopSafe":
         raise vlib.Infra("spec with the send after mu.Unlock does not reach the closed-channel send (violated=%s)" % d9.violated)
+    for sw, cfgname, inv in (("M_HeartbeatOneSection", "BatcherProto_base.cfg", "HandOverOnce"),
+                             ("M_StopLeavesPartial", "BatcherProto_stop.cfg", "CommitInSeqOrder")):
+        m = ctx.tlc("BatcherProto", cfgname, timeout=600, deadlock=False, overrides={sw: "FALSE"}, name="BatcherProto/%s off (mutant)" % sw)
+        if m.ok or m.violated != inv:
+            raise vlib.Infra("spec with %s off is not rejected by %s (violated=%s)" % (sw, inv, m.violated))
     # 2a. direct scenarios -> trace validation
     scs = direct_scenarios(ctx, 400 if thorough else 80)
     cases = os.path.join(ctx.scratch, "c08_cases.ndjson")
@@ -112,6 +122,9 @@ def run(ctx):
         raise vlib.Infra("stop child did not finish and did not panic: %s" % st)
     if st["bad_commits"]:
         recs.append({"kind": "stop_commit_of_unsent_or_twice", "count": st["bad_commits"]})
+    if st.get("out_of_order") or st.get("before_send_return"):
+        recs.append({"kind": "stop_commit_out_of_order", "later_event_first": st.get("out_of_order", 0),
+                     "before_send_return": st.get("before_send_return", 0), "example": st.get("example", "")})
     ctx.classify(recs)
     # 3. shared pipeline scenarios
     _c01.run(ctx, pid=PID, families=(("batch", 100, 500), ("commit", 40, 200), ("retry", 40, 200)))
